@@ -430,6 +430,12 @@ impl<C: Config> World<C> {
                     "tat" => Some(v.downcast_ref::<C::E>().expect("driver: type").at(i).decode_self()),
                     "tget_mut" => v.downcast_mut::<C::E>().expect("driver: type").get_mut(i).map(|e| e.decode_self()),
                     "tat_mut" => Some(v.downcast_mut::<C::E>().expect("driver: type").at_mut(i).decode_self()),
+                    // the *_unchecked accessors under their documented precondition (index in range: the driver checks it itself)
+                    "get_unchecked" | "get_unchecked_mut" | "tget_unchecked" | "tget_unchecked_mut" if i >= v.len() => None,
+                    "get_unchecked" => Some(Self::elem_obs(&unsafe { v.get_unchecked(i) }, out)),
+                    "get_unchecked_mut" => Some(Self::elem_obs(&unsafe { v.get_unchecked_mut(i) }, out)),
+                    "tget_unchecked" => Some(unsafe { v.downcast_ref::<C::E>().expect("driver: type").get_unchecked(i) }.decode_self()),
+                    "tget_unchecked_mut" => Some(unsafe { v.downcast_mut::<C::E>().expect("driver: type").get_unchecked_mut(i) }.decode_self()),
                     k => panic!("driver: bad get kind {}", k),
                 };
                 match r { None => out.res = "none", Some(d) => out.ret.push(pair(d)) }
@@ -451,6 +457,15 @@ impl<C: Config> World<C> {
                 out.ret.push(pair(d));
             }
             "ext_drop" => { let v = self.ext.pop().expect("driver: ext empty"); drop(v); }
+            "debug" => {
+                // Debug of the erased vector reports its length (and type id)
+                let txt = { let _h = HarnessScope::new(); format!("{:?}", self.v(x)) };
+                let n: i64 = txt.split("len: ").nth(1).and_then(|t| t.trim_end_matches(|c: char| !c.is_ascii_digit()).split(|c: char| !c.is_ascii_digit()).next())
+                    .and_then(|d| d.parse().ok()).unwrap_or(-1);
+                out.ret.push((n, 0));
+                let _h = HarnessScope::new();
+                drop(txt);
+            }
             "drain_begin" => {
                 let b = bounds(a);
                 if st(a, "path") == "typed" {
@@ -578,7 +593,7 @@ impl<C: Config> World<C> {
                 let n = bound_val(a["n"].as_i64().unwrap_or(0));
                 if !C::cap_op(self.v(x), op, n, st(a, "path") == "typed") { panic!("driver: capacity operations not offered by this backend"); }
             }
-            "clone_vec" | "lazy" => {
+            "clone_vec" | "lazy" | "fn_ptrs" => {
                 if !C::clone_ops(self, a, out) { panic!("driver: clone operations need a Cloneable constraint set"); }
             }
             "ce_probe" => {
@@ -1076,6 +1091,20 @@ where C::Tr: any_vec::traits::Cloneable {
                 #[cfg(not(feature = "alloc"))]
                 "heap" => probe!(src.clone_empty_in(any_vec::mem::Stack::<512>), -1),
                 v => panic!("driver: bad via {}", v),
+            }
+        }
+        "fn_ptrs" => {
+            // the element_clone / element_drop function pointers used directly on raw storage
+            let i = usz(a, "i");
+            let v: &V<C> = w.v(x);
+            let cf = v.element_clone();
+            let df = v.element_drop();
+            let src = unsafe { v.as_bytes().as_ptr().add(i * C::E::SZ) };
+            let mut buf = std::mem::MaybeUninit::<C::E>::uninit();
+            unsafe {
+                cf(src, buf.as_mut_ptr() as *mut u8, 1);
+                out.ret.push(elem::decode_ptr(buf.as_ptr() as *const u8, C::E::SZ));
+                match df { Some(f) => f(buf.as_mut_ptr() as *mut u8, 1), None => { if std::mem::needs_drop::<C::E>() { out.note.push("bad_parts".to_string()); } } }
             }
         }
         "lazy" => {
